@@ -841,6 +841,146 @@ def rule_noprint(ctx, sig, body, arg):
     return sig, body
 
 
+def _calls_of(body, fname):
+    """(start, end, [arg texts], open_paren_end, close_paren_pos) for every call `fname(..)` (not preceded by `.` or `::` or `fn`)"""
+    toks = tokenize(body)
+    ct = code_tokens(toks)
+    res = []
+    for i, t in enumerate(ct):
+        if t.kind == 'ident' and t.text == fname and i + 1 < len(ct) and ct[i + 1].text == '(' \
+                and (i == 0 or ct[i - 1].text not in ('.', '::', 'fn')):
+            close = match_close(ct, i + 1)
+            inner = body[ct[i + 1].end:ct[close].pos]
+            res.append((t.pos, ct[close].end, inner, ct[i + 1].end, ct[close].pos))
+    return res
+
+
+def rule_printargs(ctx, sig, body, arg):
+    """@rule printargs <fn>: the first argument (the text) of every call `<fn>(TEXT, ..)` becomes `verif_msg()` (an opaque String).
+    <fn> is a printing helper (print_if_allowed): the text is only written to stdout, which no contract mentions; expressions that
+    only feed the text (format!, elapsed times, cardinalities) leave the verified function with it."""
+    fname = arg.strip()
+    calls = _calls_of(body, fname)
+    if not calls:
+        raise RuleError(f'no call of {fname}')
+    for start, end, inner, a, b in reversed(calls):
+        args = _split_top_commas(inner)
+        if len(args) < 1:
+            raise RuleError(f'{fname}() without arguments')
+        new_inner = ', '.join(['verif_msg()'] + args[1:])
+        ctx.note('R-printargs', body[start:end], f'{fname}({new_inner})')
+        body = body[:a] + new_inner + body[b:]
+    return sig, body
+
+
+def rule_enumloop(ctx, sig, body, arg):
+    """@rule enumloop <occurrence>: `for (I, X) in V.iter().enumerate() { B }` (V a Vec, B without `continue`) ->
+    `let mut I: usize = 0; while I < V.len() { let X = &V[I]; B  I += 1; }` : the definition of iter() + enumerate() on a Vec
+    (items in order, paired with their index).  Verus has no specification of Enumerate."""
+    occ = int(arg.split()[0]) if arg.strip() else 1
+    pat = re.compile(r'for\s*\(\s*(\w+)\s*,\s*(\w+)\s*\)\s*in\s+([\w\.]+?)\s*\.iter\(\)\s*\.enumerate\(\)\s*\{')
+    ms = [m for m in pat.finditer(body) if not _in_comment_or_string(body, m.start())]
+    if occ < 1 or occ > len(ms):
+        raise RuleError('no `for (i, x) in v.iter().enumerate() {` loop found')
+    m = ms[occ - 1]
+    i, x, v = m.group(1), m.group(2), m.group(3)
+    # matching close brace of the loop body
+    toks = tokenize(body)
+    ct = code_tokens(toks)
+    open_i = next(k for k, t in enumerate(ct) if t.pos == m.end() - 1)
+    close_i = match_close(ct, open_i)
+    inner = body[ct[open_i].end:ct[close_i].pos]
+    if any(t.kind == 'ident' and t.text == 'continue' for t in code_tokens(tokenize(inner))):
+        raise RuleError('loop body contains `continue`')
+    head = f'let mut {i}: usize = 0;\n    while {i} < {v}.len() {{\n        let {x} = &{v}[{i}];'
+    tail = f'\n        {i} += 1;\n    }}'
+    ctx.note('R-enumloop', m.group(0), head + ' .. ' + tail.strip())
+    return sig, body[:m.start()] + head + inner + tail + body[ct[close_i].end:]
+
+
+def _in_comment_or_string(body, pos):
+    for t in tokenize(body):
+        if t.pos <= pos < t.end:
+            return t.kind in ('comment', 'str')
+    return False
+
+
+def rule_localcallback(ctx, sig, body, arg):
+    """@rule localcallback: the statement `let mut progress_callback = ..;` and the argument `&mut progress_callback` are removed
+    (R-callback: the progress observer only receives shared references and cannot influence results; the callee is verified
+    without the parameter)."""
+    m = re.search(r'let\s+mut\s+progress_callback\s*=', body)
+    if not m:
+        raise RuleError('no `let mut progress_callback =`')
+    toks = tokenize(body)
+    ct = code_tokens(toks)
+    k = next(i for i, t in enumerate(ct) if t.pos >= m.end())
+    depth = 0
+    while not (ct[k].text == ';' and depth == 0):
+        if ct[k].text in '([{':
+            depth += 1
+        elif ct[k].text in ')]}':
+            depth -= 1
+        k += 1
+    ctx.note('R-callback', body[m.start():ct[k].end], '')
+    body = body[:m.start()] + body[ct[k].end:]
+    pat = re.compile(r',\s*&mut\s+progress_callback\s*,?')
+    n = len(pat.findall(body))
+    if n == 0:
+        raise RuleError('no argument `&mut progress_callback`')
+    body = pat.sub(',', body)
+    if re.search(r'\bprogress_callback\b', body):
+        raise RuleError('progress_callback still present after rewriting')
+    return sig, body
+
+
+def rule_maperr(ctx, sig, body, arg):
+    """@rule maperr: `CALL(..).map_err(|e| e.to_string())` -> `verif_map_err(CALL(..))` whose contract is the definition of
+    Result::map_err restricted to what matters here: Ok stays Ok with the same value, Err stays Err (the message is opaque)."""
+    pat = re.compile(r'\.\s*map_err\(\s*\|\s*e\s*\|\s*e\.to_string\(\)\s*\)')
+    ms = list(pat.finditer(body))
+    if not ms:
+        raise RuleError('no `.map_err(|e| e.to_string())`')
+    for m in reversed(ms):
+        toks = tokenize(body[:m.start()])
+        ct = code_tokens(toks)
+        j = len(ct) - 1
+        if ct[j].text != ')':
+            raise RuleError('receiver of map_err is not a call')
+        # find the matching '('
+        depth = 0
+        while True:
+            if ct[j].text in ')]}':
+                depth += 1
+            elif ct[j].text in '([{':
+                depth -= 1
+                if depth == 0:
+                    break
+            j -= 1
+        j -= 1
+        while j >= 1 and ct[j].kind == 'ident' and ct[j - 1].text in ('::', '.'):
+            j -= 2
+        if ct[j].kind != 'ident':
+            raise RuleError('cannot find the receiver of map_err')
+        start = ct[j].pos
+        recv = body[start:m.start()].rstrip()
+        new = f'verif_map_err({recv})'
+        ctx.note('R-maperr', body[start:m.end()], new)
+        body = body[:start] + new + body[m.end():]
+    return sig, body
+
+
+def rule_fmtvallit(ctx, sig, body, arg):
+    """@rule fmtvallit <literal> <Type>..: as fmtval, the format! is selected by its literal instead of its position"""
+    parts = arg.split()
+    lit = parts[0]
+    calls = _macro_calls(body, 'format')
+    for n, (start, end, inner) in enumerate(calls):
+        if _split_top_commas(inner)[0] == lit:
+            return rule_fmtval(ctx, sig, body, ' '.join([str(n + 1)] + parts[1:]))
+    raise RuleError(f'no format!({lit}, ..)')
+
+
 def rule_mapcollect2(ctx, sig, body, arg):
     """@rule mapcollect2 <ElemType>: `let V = X .into_iter() .map(F) .collect::<Vec<_>>();` (F a function path, X a Vec of Copy items)
     -> `let mc__src = X; let mut V: Vec<ElemType> = Vec::new(); for mc__e in mc__src.iter() { V.push(F(*mc__e)); }`
